@@ -278,6 +278,10 @@ def r4_matcher_indices(ctx):
                  '' if not probs else 'segment_if.is_match would raise IndexError: %s' % '; '.join(sorted(set(probs))))
 
 
+def _definitely_returns_const(body, val):
+    return bool(body) and isinstance(body[-1], ast.Return) and A.const(body[-1].value) is val
+
+
 def r5_walker_wiring(ctx):
     """counting / ordering atoms of the walker that every conformant document depends on"""
     import itertools
@@ -384,8 +388,15 @@ def r5_walker_wiring(ctx):
     require_idiom(ok, 'c02.py:381')
     yield Ob('nodeCounter:NodeCounter.reset_to_node drops exactly the counts below the node', ok, ctx.floc(fn), '' if ok else 'reset changed')
     fn = ctx.func('path', 'X12Path.is_child_path')
-    t = [n for n in ast.walk(fn) if isinstance(n, ast.If) and 'len(root)' in norm(n.test)]
-    ok = len(t) == 1 and [bool(A.ev(t[0].test, {'root': (0,) * a, 'child': (0,) * 3})) for a in (2, 3, 4)] == [False, True, True]
+    tab = {"self.format().split('/')": 'root', "child_path.split('/')": 'child', 'root': 'root', 'child': 'child'}
+    t = []
+    for n in ast.walk(fn):
+        if isinstance(n, ast.If) and _definitely_returns_const(n.body, False):
+            e = A.abstract(n.test, tab)
+            if 'len(root)' in norm(e) and 'len(child)' in norm(e):
+                t.append(e)
+    require_idiom(len(t) == 1, 'c02.py:is_child_path length test')
+    ok = [bool(A.ev(t[0], {'root': (0,) * a, 'child': (0,) * 3})) for a in (2, 3, 4)] == [False, True, True]
     yield Ob('path:X12Path.is_child_path a path is not its own child', ok, ctx.floc(fn), '' if ok else 'length test changed: reset_to_node would delete the node\'s own count')
     # --- x12n_document restarts the counts at every ISA / GS
     fn = ctx.func('x12n_document', 'x12n_document')
